@@ -148,6 +148,53 @@ CHECKS = {
              'Sentinel: every public Grid method and the equation classes with the implementation switched and each option toggled (1e-12).',
         note=TB + 'XLA einsum / precision hints are executed, not modelled: option independence is exact in the model, to rounding in the code.',
         design='6/C09'),
+    'C01': dict(
+        technique='Lean 4 theorems (any commutative ring / ordered field, any sizes) about an executable model of the Legendre recurrence, the real Fourier bases and both '
+                  'transform classes; certificates (decide +kernel on exact fixed-point arithmetic) regenerated on every run from the basis arrays the live Grid objects compute '
+                  '(translator harness/gen/shcert.py -> DinoGen/SHCert.lean); differential correspondence in float64 and in exact rational arithmetic',
+        text='Machine-checked proof for every basis of consistent shape, every size and every spectral field: analysis(synth x) is the action of the separable Gram tensor; an entrywise eps-identity Gram tensor on the resolved block '
+             'gives an eps*|x|_1 round trip for every field supported there; soundness of the exact Gram check that the certificates evaluate, so that for each certified grid (both implementations, gauss / equiangular / with poles, offsets, radii, padding) '
+             'the round-trip bound holds for ALL fields in exact arithmetic on the float constants the code computed; structural zeros of the Legendre table for l < m at every size (entries outside the triangle neither influence nor appear); '
+             'integral of a synthesised field = r^2 * (column integrals) and the (0,0) normalisation against 4 pi on the generated constants; fast layout with padding. '
+             'PARTIAL (named): the quantifier over grid configurations is certified on small grids (M <= 4 quick / <= 10 thorough) and sampled numerically on T21..T106 / TL31..TL127 (Gram within 1e-10 on the block the spacing rule says is resolved); '
+             'Gauss-Legendre exactness and Legendre orthogonality are not in the installed Mathlib.',
+        note=TB + 'Translator harness/gen/shcert.py. scipy roots_legendre / numpy linalg.solve (quadrature nodes and weights) are external: their output is what the certificates check. sqrt/sin/cos external to the executable model.',
+        design='6/C01'),
+    'C02': dict(
+        technique='Lean 4 theorems (commutative rings / fields, Real for the analytic derivative) about an executable model of every Grid operator for both modal layouts, '
+                  'tied to the code by differential correspondence on every unit coefficient of small grids and by analytic-oracle probes on the real code',
+        text='Machine-checked proof for both layouts, all sizes M, L, paddings and radii r != 0: the index map of both longitude-derivative functions is the coefficient map of the termwise analytic derivative of the Fourier series (HasDerivAt); '
+             'd_dlon o d_dlon = -m^2, d_dlon kills m = 0; laplacian and inverse_laplacian are inverse on 1 <= l < L, inverse_laplacian is zero at l = 0 and on padding, eigenvalues scale as r^-2; for arbitrary weights D1 - D2 = 2 Mu, and with the code\'s recurrence weights '
+             'a^2 = (l^2-m^2)/(4l^2-1) the coefficient-space Legendre equation D1 D1 + d_dlon d_dlon = (1 - Mu Mu) r^2 laplacian holds for every (m, l) in the interior of the truncation (model weights with any sqrt that squares back; Real.sqrt instance); '
+             'k x k x = -id, div(k x v) = -curl v, curl(k x v) = div v, linearity of every operator, clip idempotent and commuting with l-diagonal operators; vor/div -> wind -> vor/div is the identity and div of a rotated gradient vanishes given the two nodal hypotheses Hyp-A/Hyp-B. '
+             'PARTIAL (named): the latitude-derivative recurrence is proved consistent with the Laplacian and with multiplication by sin(lat), not derived from a formal definition of P_l^m (absent from Mathlib); Hyp-A/Hyp-B are validated numerically on the real grids on every run.',
+        note=TB + 'Domain: identities are stated where clipping is vacuous (top wavenumber(s) zero), see DESIGN 6/C02.',
+        design='6/C02'),
+    'C04': dict(
+        technique='Lean 4 theorems about an executable abstract spectral model (Dino/Dynamics.lean: horizontal operations as data, their laws as named hypotheses) of the four primitive-equation classes, '
+                  'tied to the code by differential correspondence of the column physics and of full explicit/implicit terms through a matrix-operator instance; the laws are validated on the real Grid on every run; two-profile differential on the real classes',
+        text='Machine-checked proof for every level set, reference profile and kappa: the implicit temperature weights H applied to a divergence column equal the explicit adiabatic + vertical-advection formulas evaluated on the reference profile (the two halves of the split are the same discretisation), '
+             'H is additive in the profile; for the dry and the time-carrying classes, for any two reference profiles and states with the same absolute temperature, explicit + implicit tendencies are identical, from linearity and the named discrete-calculus laws (round trip, div grad = laplacian, laplacian kills the mean, clip laws). '
+             'PARTIAL (named): the moist and cloud classes are decided by the two-profile differential on the real code and by model correspondence, not yet by a theorem; their T_ref dependence on linear grids and for the cloud class are recorded known findings (keyed by class / grid kind / component).',
+        note=TB + 'Horizontal operators are abstract in the theorems; their laws are hypotheses validated numerically (quadratic and cubic grids) on every run.',
+        design='6/C04'),
+    'C07': dict(
+        technique='Lean 4 theorems about an executable model of the hand-written collective schedules (_allgather_matmul_twoway, _matmul_reducescatter_twoway, _parallel_dot_cumsum) and of the padding / stacking / frequency-offset bookkeeping, '
+                  'tied to the code by a schedule trace extracted from the real shard_map code on 8 virtual CPU devices, model correspondence, and a sharded-vs-unsharded differential on every (z,x,y) mesh of 1..8 devices',
+        text='Machine-checked proof: for every even axis size n (and n = 1) and every device, the two-way all-gather matmul accumulates sum_c lhs[c] rhs_c and the reduce-scatter matmul leaves chunk a of the full product (general induction; additionally the executable schedule is evaluated symbolically for the axis sizes 1, 2, 4, 6, 8 of the property\'s own quantifier by decide +kernel; odd sizes > 1 rejected as in the code); '
+             'parallel prefix sum = cumulative sum of the concatenation in both directions for any shard count; zero-padded bases: the padded transform restricted to the unpadded block equals the unpadded transform and padding outputs are zero; stack/unstack of m is a bijection; per-shard longitude derivative with frequency offset = restriction of the global derivative; '
+             'crop o f o pad = f for level-wise f; _round_to_multiple laws; the repaired diffusion step filter is finite on padded layouts (negative witness for the pre-fix NaN). '
+             'PARTIAL (named): XLA SPMD partitioner, shard_map, collectives, with_sharding_constraint are executed by the check, not modelled.',
+        note=TB + 'Runs with XLA_FLAGS=--xla_force_host_platform_device_count=8.',
+        design='6/C07'),
+    'C11': dict(
+        technique='Lean 4 theorems (submodule invariants by induction over arbitrary histories of filtered steps) about the abstract spectral model Dino.Dynamics, the integrator model Dino.Imex and Dino.Filters; '
+                  'clock-advance certificates on the tableaux regenerated from the source; model correspondence and bitwise trajectory probes on the real code',
+        text='Machine-checked proof: for every state the explicit tendencies of every class lie in the structural submodule S (zero outside the mask and at the clipped top wavenumber); vorticity / divergence tendencies have zero (0,0) coefficient (dry class exactly); '
+             'implicit terms and the implicit inverse map S -> S, keep the (0,0) entries and pass vorticity, tracers and the clock through; every integrator maps S -> S and advances an observable with explicit tendency c, implicit tendency 0 by (dt*adv)*c, so the invariant holds after ANY list of steps and filters (List.foldl); '
+             'adv = 1 for Euler, CN-RK2, RK3, SIL3 (certificates on the regenerated tables) and within 1e-12 of one for the 13-digit RK4 table; filters leave scalar leaves alone and fix the (0,0) entry; any linear functional that vanishes on both tendencies and is passed through by the inverse (the (0,0) means of vorticity / divergence, the shallow-water mean thickness: checked on the shallow-water model and the real class each run) is conserved by every integrator; a uniform tracer has zero tendency given the round-trip and div(uv) = delta laws.',
+        note=TB + 'Moist classes: (0,0) entries of the humidity corrections are quadrature-level (1e-19), stated to rounding; laws of the horizontal operators are hypotheses validated on the real grids.',
+        design='6/C11'),
 }
 
 NOT_YET = {
